@@ -156,6 +156,11 @@ def sanitizer_report(stderr):
     m = re.search(r"(ERROR: AddressSanitizer[^\n]*|runtime error:[^\n]*|ERROR: LeakSanitizer[^\n]*)", stderr or "")
     return m.group(1) if m else None
 
+def bmorder_report(stderr):
+    """first bitmap write-order violation the harness observed on the real code (C18), or None"""
+    m = re.search(r"BMORDER: ([^\n]*)", stderr or "")
+    return m.group(1) if m else None
+
 # ---------------------------------------------------------------------------- results
 class Result:
     def __init__(self, pid, tier, seed):
